@@ -20,6 +20,7 @@ mod props;
 mod rng;
 mod rpc;
 mod run;
+mod sched;
 mod world;
 
 use run::{ReplayFile, Run, RunResult};
